@@ -2,6 +2,7 @@ import LenaModel.DriverUtil
 import LenaModel.Model.C18
 import LenaModel.Model.C18Split
 import LenaModel.Model.C18Ctx
+import LenaModel.Model.C18Spec
 /-! Model driver for C18.  One request per case (a history), one reply:
   {"nc":n, "hist":[op,…]}  ->  {"ops":[obs,…]}
   op  = {"op":"run","mode":"source"|"sequence"|"hoist"|"hoist_src"|"meta"|"bare_hoist"|"bare_meta",
@@ -107,14 +108,28 @@ def runObs (nc : Nat) (w : World) (r : RunSpec) : World × Json :=
     ("snaps", ofList (fun o => bitsJson nc o.2) d.outs),
     ("fs", fsJson nc w'.fs),
     ("ids", ofList ofNat (cacheIds r.els)),
+    -- the specification-side vocabulary of the theorems, evaluated on this run (Model/C18Spec.lean)
+    ("spec", Json.mkObj [
+      ("distinct", Json.bool (distinctB r.els)),
+      ("nofilled", Json.bool (noFilledB w.fs r.els)),
+      ("modeok", Json.bool (modeOkB r.mode r.els)),
+      ("erased", let f := pipeFlow w.fs r.src (eraseCaches r.els)
+                 Json.mkObj [("vals", ofIntList f.vals), ("exc", ofOpt (fun e => Json.str (excName e)) f.exc)]),
+      ("endof", Json.str (endName (endOf ref r.demand))),
+      ("stored", ofList (fun (cx : Nat × List Val) => Json.arr #[ofNat cx.1, ofIntList cx.2]) (storedByList w.fs r)),
+      ("replay", ofOpt (fun (pc : Nat × Nat) => ofNat pc.1) (lastFilled w.fs 0 r.els)),
+      ("evafter", ofOpt (fun (pc : Nat × Nat) => Json.bool (d.evs.all (evAfterB pc.1))) (lastFilled w.fs 0 r.els))]),
     ("ref", Json.mkObj [("vals", ofIntList ref.vals), ("exc", ofOpt (fun e => Json.str (excName e)) ref.exc)])])
 
-def parseSplitRun (nc : Nat) (fs : FS) (j : Json) : Option SplitRunSpec := do
+def parseSplitRun (nb V nc : Nat) (fs : FS) (j : Json) : Option SplitRunSpec := do
   let sj := getD j "src"
   let vals ← intList? (getD sj "vals")
   let r ← optNat (getD sj "raise")
-  let outer ← (arr? (getD j "outer")).bind (fun a => a.toList.mapM parseEl)
-  let branch ← (arr? (getD j "branch")).bind (fun a => a.toList.mapM parseEl)
+  let touter ← (arr? (getD j "outer")).bind (fun a => a.toList.mapM parseTEl)
+  let tbranch ← (arr? (getD j "branch")).bind (fun a => a.toList.mapM parseTEl)
+  -- the static context of the outer elements reaches the members of the Split (`LenaSplit._set_context`)
+  let outer := resolve nb V [] touter
+  let branch := resolve nb V (ctxAfter [] touter) tbranch
   let bufsize ← optNat (getD j "bufsize")
   let take ← optNat (getD j "take")
   let fin ← str? (getD j "fin")
@@ -131,12 +146,13 @@ def splitObs (patched bare : Bool) (nc : Nat) (w : World) (r : SplitRunSpec) : W
     ("end", Json.str (endName d.end_)),
     ("ev", ofList evJson d.evs),
     ("snaps", ofList (fun o => bitsJson nc o.2) d.outs),
+    ("ids", ofList ofNat (cacheIds (r.outer ++ r.branch))),
     ("fs", fsJson nc w'.fs)])
 
 def stepObs (patched : Bool) (nb V nc : Nat) (w : World) (j : Json) : Option (World × Json) :=
   match str? (getD j "op") with
   | some "splitrun" => do
-    let r ← parseSplitRun nc w.fs j
+    let r ← parseSplitRun nb V nc w.fs j
     pure (splitObs patched ((bool? (getD j "bare")).getD false) nc w r)
   | some "run" => do
     let r ← parseRun nb V nc w.fs j
@@ -146,6 +162,10 @@ def stepObs (patched : Bool) (nb V nc : Nat) (w : World) (j : Json) : Option (Wo
     let rc := (bool? (getD j "rc")).getD false
     let (w', e) := dropOp w c rc
     pure (w', Json.mkObj [("r", Json.str (match e with | none => "ok" | some e => excName e)), ("fs", fsJson nc w'.fs)])
+  | some "dropdir" =>
+    let rc := (bool? (getD j "rc")).getD false
+    some (w, Json.mkObj [("r", Json.str (match dropBlocked rc with
+      | .lenaEnvironmentError => "LenaEnvironmentError" | .osError => "OSError")), ("fs", fsJson nc w.fs)])
   | some "repr" => do
     -- `Cache.__repr__` (cache.py:132-140) shows `cache_exists()`
     let c ← nat? (getD j "c")
